@@ -893,6 +893,51 @@ func TestStatusMatrix(t *testing.T) {
 	}
 }
 
+// every method x success status x one entity header at a time set to each value of its hostile pool (the body is
+// one the method can digest, so that the header is actually looked at).  Only "returns, no panic" is asserted.
+func TestHeaderValues(t *testing.T) {
+	if vev.ReplayFile() != "" {
+		t.Skip()
+	}
+	pools := map[string][]string{
+		"ETag":           {`"ok"`, "unquoted", `W/"w"`, `"`, ` " `, `""`, `"a"b"`, `'a'`, `"\\`, "\"\\\"", `"unterminated`, "W/", `"\xff"`},
+		"Last-Modified":  {"Mon, 02 Jan 2006 15:04:05 GMT", "yesterday", "0", "Mon, 02 Jan 2006 15:04:05", " "},
+		"Content-Length": {"12", "-1", "abc", "99999999999999999999"},
+		"Location":       {"/new/path", "http://[::1", "%zz", "//", "rel", "http://other.example/x y"},
+		"Content-Type":   {"text/calendar", "text/vcard", "TEXT/VCARD; charset", ";", "a/b/c", "text/calendar; charset=\"", "application/xml"},
+		"DAV":            {"1, 3, addressbook", ",", "addressbook,", " "},
+	}
+	names := []string{"ETag", "Last-Modified", "Content-Length", "Location", "Content-Type", "DAV"}
+	k := 0
+	for _, m := range methods {
+		body, ct := "", ""
+		switch m.name {
+		case "caldav.GetCalendarObject":
+			body, ct = icalText, "text/calendar"
+		case "carddav.GetAddressObject":
+			body, ct = vcardText, "text/vcard"
+		case "webdav.Open":
+			body = "content"
+		}
+		for _, status := range []int{200, 201, 204} {
+			for _, h := range names {
+				for _, v := range pools[h] {
+					k++
+					if !vev.MyShare(k) {
+						continue
+					}
+					c := Case{Method: m.name, Script: script{Status: status, CT: ct, Body: vev.B(body), Hdr: [][2]string{{h, v}}}}
+					if h == "Content-Type" {
+						c.Script.CT = ""
+					}
+					run(t, nil, c, "header-values/"+h)
+				}
+			}
+		}
+	}
+	rec.ExhaustiveSub("every public client method x status {200,201,204} x one of ETag / Last-Modified / Content-Length / Location / Content-Type / DAV set to each value of its hostile pool")
+}
+
 func TestDocuments(t *testing.T) {
 	if vev.ReplayFile() != "" {
 		t.Skip()
